@@ -1,5 +1,7 @@
 import GB.Base.Proto
 import GB.C04.Spec
+import GB.C04.Refine
+import GB.C04.WF
 /-
   C04 driver: parses one case line of harness/c04 (schema, binding, body, path/query parameters and the
   post-library oracles), runs the model `transcode` / `streamTranscode`, judges the implementation's
@@ -350,18 +352,39 @@ def judge (c : Case) (orc : Oracle) (stream : Bool) (dec : Dec) (impl : Res) : S
         | some (.ok l) => if renderLeaves m == renderLeaves l then none else some s!"fields differ from the binding rules: spec={specName sp}"
         | some (.error _) => some s!"accepted a request the binding rules reject: spec={specName sp}"
         | none => none
+  -- does C04_refines / C04_order_independent cover this request? (counted in the branch histogram)
+  let thm := match srcsOf c.sch c.root (allCalls c.sch c.root c.bd c.rq) with
+    | some srcs => pairwiseUnrelated (srcs.map (·.p))
+    | none => false
   match specViol with
   | some why => s!"VIOL {why} model={showRes (transcode c.sch orc c.root c.bd dec c.rq)}"
   | none =>
+    if !wfInputs c.sch orc c.root c.rq then "BAD model inputs not well formed (dangling reference, illegal map key kind or oracle miss)"
+    else
     let models := (orders c.rq).map (fun rq => transcode c.sch orc c.root c.bd dec rq)
+    let okLeaves : List (List String) := models.filterMap (fun r => match r with
+      | .ok m => some (renderLeaves m)
+      | .error _ => none)
+    let orderDependent : Bool := match okLeaves with
+      | [] => false
+      | l :: rest => rest.any (fun l' => l' != l)
     if models.any (fun r => match r with
         | .error .fault => true
-        | _ => false) then "BAD model-fault (dangling reference or oracle miss)"
+        | _ => false) then "BAD model-fault although the inputs are well formed (contradicts C04_no_fault)"
+    else if thm && orderDependent then "BAD order-dependent although C04_order_independent applies"
+    else if models.any (sameRes impl) && orderDependent then
+      match okLeaves with
+      | l :: rest =>
+        let other := (rest.find? (fun l' => l' != l)).getD []
+        "VIOL map-order-dependent: overlapping keys are applied in Go map iteration order, the accepted message is not a function of the request: ["
+          ++ String.intercalate ";" l ++ "] vs [" ++ String.intercalate ";" other ++ "]"
+      | [] => "BAD unreachable"
     else if models.any (sameRes impl) then
+      let t := if thm then "-thm" else ""
       let br := match impl, sp with
-        | .ok _, some _ => "ok-spec"
-        | .ok _, none => "ok-free"
-        | .err e, _ => s!"err-{e}"
+        | .ok _, some _ => s!"ok-spec{t}"
+        | .ok _, none => s!"ok-free{t}"
+        | .err e, _ => s!"err-{e}{t}"
         | _, _ => "other"
       let nt := match impl with
         | .ok m => if (leaves m).isEmpty then "" else " nt"
